@@ -31,6 +31,11 @@ def small_models(c):
         maxlen, maxpiece = (40, 20) if c.thorough else (20, 14)
         mc(c, "HashBuf", "CONSTANTS\n B = 6\n FOOT = %d\n KIND = \"%s\"\n CW = 8\n MAXLEN = %d\n MAXPIECE = %d\nINIT Init\nNEXT Next\nCHECK_DEADLOCK FALSE\nINVARIANTS Coherent CounterExact FinalRight\n"
            % (foot, kind, maxlen, maxpiece), "HashBuf KIND=%s B=6 CW=8 MAXLEN=%d: every partition into update calls; Coherent, CounterExact, FinalRight" % (kind, maxlen))
+    # the same model at the REAL block and footer sizes (counter word wide enough not to wrap): every length up to 2B+20, every partition
+    for kind, b, foot in [("blake", 64, 9), ("blake", 128, 17), ("groestl", 64, 8), ("groestl", 128, 8), ("jh", 64, 8), ("skein", 32, 0), ("skein", 64, 0), ("skein", 128, 0)]:
+        mp = (2 * b + 1) if c.thorough else (b + 2)
+        mc(c, "HashBuf", "CONSTANTS\n B = %d\n FOOT = %d\n KIND = \"%s\"\n CW = 1048576\n MAXLEN = %d\n MAXPIECE = %d\nINIT Init\nNEXT Next\nCHECK_DEADLOCK FALSE\nINVARIANTS Coherent CounterExact FinalRight\n"
+           % (b, foot, kind, 2 * b + 20, mp), "HashBuf KIND=%s at the real block size B=%d, footer %d: all lengths 0..%d, pieces 0..%d" % (kind, b, foot, 2 * b + 20, mp), workers=4)
     for lazy in ("FALSE", "TRUE"):
         b, maxlen, ninst = (3, 7, 2) if c.thorough else (2, 5, 2)
         mc(c, "HashInst", "CONSTANTS\n B = %d\n LAZY = %s\n MAXLEN = %d\n NINST = %d\nINIT Init\nNEXT Next\nVIEW View\nCHECK_DEADLOCK FALSE\nINVARIANT StateIsFunctionOfMessage\nPROPERTIES DigestRight Independent\n"
